@@ -433,7 +433,7 @@ def run(ctx):
 
     vals = ctx.coq(PRE, terms, shard=6 if tier == "quick" else 12)
     counts = {"ev": 0, "hi": 0, "lc": 0, "mc": 0, "stp": 0}
-    cert_ok = eval_defect = hist_defect = hist_equal = hist_theorem_cases = hist_total = 0
+    cert_ok = eval_defect = hist_defect = hist_equal = hist_theorem_cases = hist_total = hist_drift = 0
     for (kind, i, extra), v in zip(meta, vals):
         case, res = cases[i], impl[i]
         pc = case["pomdp"]
@@ -495,28 +495,35 @@ def run(ctx):
                     hs = [[st] + h for st in steps for h in hs]
                 if len(real) != len(mir) or len(hs) != len(mir):
                     bad_mirror = {"length": L, "why": "history enumeration differs"}
+                    bad_spec = bad_spec or {"history": None, "why": "object enumerates a different number of histories", "_d": F(1)}
                     break
                 for h, rr, mm, ss in zip(hs, real, mir, spec):
                     mm, ss = unq(mm), unq(ss)
                     if rr != mm and bad_mirror is None:
                         bad_mirror = {"history": h, "object": str(rr), "mirror": str(mm), "semantics": str(ss)}
-                    if rr != ss and (bad_spec is None or abs(rr - ss) > bad_spec["_d"]):
-                        bad_spec = {"history": h, "object_probability": str(rr), "controller_semantics_probability": str(ss), "_d": abs(rr - ss)}
+                    # the property: object probability = controller semantics (exact on the k/8 grid; a
+                    # normalising implementation may round: 1e-12 slack)
+                    if (rr is None or abs(rr - ss) > F(1, 10 ** 12)) and (bad_spec is None or rr is None or abs(rr - ss) > bad_spec["_d"]):
+                        bad_spec = {"history": h, "object_probability": str(rr), "controller_semantics_probability": str(ss),
+                                    "_d": abs(rr - ss) if rr is not None else F(1)}
             if bad_spec:
                 bad_spec.pop("_d")
             if shared or det:
                 hist_theorem_cases += 1
-            if bad_mirror:
-                report("C09:controller:object-differs-from-mirror", {"case": case, "first": bad_mirror}, found=bad_spec is not None)
-            elif bad_spec:
+            if bad_spec is None:
+                hist_equal += 1
+                if bad_mirror:
+                    hist_drift += 1      # object differs from the mirror model but meets the semantics: drift, not a violation
+            else:
                 hist_defect += 1
-                if shared or det:
+                bad_spec["clause"] = "executing the controller object produces action/observation histories with exactly the probabilities the controller defines"
+                if bad_mirror:
+                    report("C09:controller:history-probability-wrong", {"case": case, "worst": bad_spec, "first_mirror_difference": bad_mirror}, found=True)
+                elif shared or det:
                     report("C09:internal:history-theorem-contradicted", {"case": case, "worst": bad_spec}, found=False)
                 else:
-                    bad_spec["clause"] = "executing the controller object produces action/observation histories with exactly the probabilities the controller defines"
+                    # object = mirror of next_agentstate(ag,a,o) = ag . omega[:,a,o,:]  (no weighting by pi[n,a])
                     report("C09:controller:next_agentstate-ignores-action-evidence", {"case": case, "worst": bad_spec, "init": fc["init"]}, found=True)
-            else:
-                hist_equal += 1
         elif kind == "lc":
             learner = case["kind"]
             fl_ = dict(zip(LEARN_CLAUSES, v))
@@ -568,7 +575,7 @@ def run(ctx):
         "coq_terms": counts, "certificate_accepts": cert_ok, "run_on_conformance_cases": nruns,
         "evaluator_unmasked_absorbing_cases": eval_defect,
         "history_cases": hist_total, "history_cases_object_equals_semantics": hist_equal,
-        "history_cases_object_differs_from_semantics": hist_defect, "history_cases_covered_by_partial_theorems": hist_theorem_cases,
+        "history_cases_object_differs_from_semantics": hist_defect, "history_cases_mirror_drift": hist_drift, "history_cases_covered_by_partial_theorems": hist_theorem_cases,
         "signature_counts": report.counts,
         "input_features": feats, "cases": len(cases),
     })
